@@ -99,6 +99,8 @@ def cases(ctx):
     for i in range(ctx.pick(200, 8000)):
         yield "truncate", {"seed": ctx.subseed("t", i)}
     for i in range(ctx.pick(300, 12000)):
+        yield "history", {"seed": ctx.subseed("hi", i)}
+    for i in range(ctx.pick(300, 12000)):
         yield "generate", {"seed": ctx.subseed("g", i)}
 
 
@@ -158,6 +160,54 @@ def run_case(ctx, name, params):
             judge_pair(ctx, A, B, "random")
             ctx.count("cases")
             ctx.sample({"a": a, "b": b, "equal_expected": expect_equal(a, b)}, "random_pair")
+    elif name == "history":
+        # a design point is hashed / compared, then its vector is re-assigned, overwritten by sync() or updated in place (all
+        # three happen in the library: mutation in generate, the retry in Job.evaluate, swarm position updates); afterwards it
+        # must equal -- and hash like -- a fresh point with the same coordinates, and differ from its former self
+        from artap.operators import nondominated_truncate, TournamentSelector
+        r = ctx.rng("hi", params["seed"])
+        n = r.randint(1, 5)
+        A = r.choice(cls)(base_vector(r, n))
+        ops = []
+        for step in range(r.randint(1, 6)):
+            op = r.choice(["hash", "set", "eq", "assign", "inplace", "sync", "dict"])
+            ops.append(op)
+            if op == "hash":
+                hash(A)
+            elif op == "set":
+                {A}
+            elif op == "dict":
+                {A: 1}.get(A)
+            elif op == "eq":
+                A == r.choice(cls)(list(A.vector))
+            elif op == "assign":
+                A.vector = base_vector(r, n)
+            elif op == "inplace":
+                i = r.randrange(n)
+                A.vector[i] = A.vector[i] + r.choice(DELTAS) * r.choice([-1, 1])
+            else:
+                other = r.choice(cls)(base_vector(r, n))
+                A.sync(other)
+            fresh = r.choice(cls)(list(A.vector))
+            ctx.count("history_checks")
+            wit = lambda: {"operations": ops, "vector_now": list(A.vector)}
+            if not (A == fresh) or not (fresh == A):
+                ctx.violation("history/eq_after_update", "a point whose vector was updated does not equal a fresh point with the same coordinates", wit())
+                return
+            if hash(A) != hash(fresh):
+                ctx.violation("history/hash_after_update", "identical vectors, different hashes after the vector of a hashed point was updated", wit())
+                return
+            if len({A, fresh}) != 1:
+                ctx.violation("history/set_dedup_after_update", "set() keeps a repeated design twice after one copy's vector was updated", wit())
+                return
+            A.costs_signed = [1.0, 0]
+            fresh.costs_signed = [1.0, 0]
+            TournamentSelector([{"name": "x", "bounds": [0, 1]}]).fast_nondominated_sorting([A, fresh])
+            if len(nondominated_truncate([A, fresh], 5)) != 1:
+                ctx.violation("history/truncate_dedup_after_update", "nondominated_truncate keeps a repeated design twice after an update", wit())
+                return
+        ctx.nontrivial(("hist", tuple(ops), n))
+        ctx.count("cases")
     elif name == "truncate":
         # set()-based de-duplication inside nondominated_truncate must keep every distinct design
         from artap.operators import nondominated_truncate, TournamentSelector
@@ -271,3 +321,4 @@ def requirements(ctx):
     ctx.require("hash_checks", 100)
     ctx.require("truncate_dedup_checks", 20)
     ctx.require("generate_checks", 20)
+    ctx.require("history_checks", 200)
